@@ -4,6 +4,7 @@ import (
 	"context"
 	"fmt"
 	"runtime/debug"
+	"sort"
 	"strings"
 	"time"
 
@@ -330,9 +331,14 @@ func runC20(rc *sim.RunCtx) {
 				if j == 0 && t.Bool(1, 2) {
 					e.CreateAttr("xmlns", []string{"urn:vsim", "urn:other", ""}[t.Choose(3)])
 				}
-				for k, v := range pe.Keys {
+				keyNames := make([]string, 0, len(pe.Keys))
+				for k := range pe.Keys {
+					keyNames = append(keyNames, k)
+				}
+				sort.Strings(keyNames) // the draws below must not depend on map iteration order
+				for _, k := range keyNames {
 					if t.Bool(4, 5) {
-						e.CreateElement(k).SetText(v)
+						e.CreateElement(k).SetText(pe.Keys[k])
 					}
 				}
 			}
